@@ -17,7 +17,7 @@ namespace XC.C05
 /-! ## word layer -/
 
 /-- what BLAKE2b and BLAKE2s differ in (RFC 7693 §2.1): word size, rounds, rotation constants, IV -/
-class Variant (α : Type) extends Add α, Xor α where
+class Variant (α : Type) extends Add α, XorOp α where
   zero : α
   ones : α
   wbytes : Nat
@@ -140,7 +140,7 @@ def H8.read (f : Bytes → α) (n : Nat) (b : Bytes) : H8 α :=
   ⟨f b, f (b.drop n), f (b.drop (2*n)), f (b.drop (3*n)), f (b.drop (4*n)), f (b.drop (5*n)),
    f (b.drop (6*n)), f (b.drop (7*n))⟩
 
-def H8.xor [Xor α] (x y : H8 α) : H8 α :=
+def H8.xor [XorOp α] (x y : H8 α) : H8 α :=
   ⟨x.a0 ^^^ y.a0, x.a1 ^^^ y.a1, x.a2 ^^^ y.a2, x.a3 ^^^ y.a3, x.a4 ^^^ y.a4, x.a5 ^^^ y.a5,
    x.a6 ^^^ y.a6, x.a7 ^^^ y.a7⟩
 
